@@ -105,3 +105,119 @@ func TestVerifC18CloseWaiter(t *testing.T) {
 		_ = inner.Close()
 	}
 }
+
+type c18RelEvent struct {
+	Ev       string `json:"ev"`
+	Round    int    `json:"round"`
+	Stop     int    `json:"stop"`
+	Fired    bool   `json:"fired"`
+	Released bool   `json:"released"`
+	Err      string `json:"err"`
+	Other    bool   `json:"other_served"`
+	OtherErr string `json:"other_err"`
+}
+
+// TestVerifC18CloseRelease: an Accept of listener A is about to wait because every slot is taken; before it
+// gets the limiter's lock back, BOTH a connection is closed (a slot is released, the waiters are woken) AND
+// listener A is closed.  The hook runs under the limiter's lock, so the two goroutines it starts queue up for
+// that lock and run, in either order, as soon as the Accept sleeps.  Whatever the order: the Accept returns,
+// and it holds no slot afterwards -- another listener of the same limiter serves a new connection.
+func TestVerifC18CloseRelease(t *testing.T) {
+	out := vhOpen(t)
+	rounds := vhEnvInt("VERIF_ROUNDS", 12)
+	for round := 0; round < rounds; round++ {
+		stop := 1 + round%2
+		hook := &c18CloseHook{}
+		lim, err := New(&Config{Logger: slog.New(hook), Stop: uint64(stop), Resume: uint64(stop)})
+		if err != nil {
+			t.Fatal(err)
+		}
+		innerA, err := net.Listen("tcp", "127.0.0.1:0")
+		if err != nil {
+			t.Fatal(err)
+		}
+		innerB, err := net.Listen("tcp", "127.0.0.1:0")
+		if err != nil {
+			t.Fatal(err)
+		}
+		lA := lim.Limit(innerA, &dnsserver.ServerInfo{Name: "c18relA", Addr: innerA.Addr().String(), Proto: dnsserver.ProtoDNS})
+		lB := lim.Limit(innerB, &dnsserver.ServerInfo{Name: "c18relB", Addr: innerB.Addr().String(), Proto: dnsserver.ProtoDNS})
+		var held []net.Conn
+		var clients []net.Conn
+		for i := 0; i < stop; i++ {
+			cl, derr := net.Dial("tcp", innerA.Addr().String())
+			if derr != nil {
+				t.Fatal(derr)
+			}
+			clients = append(clients, cl)
+			cn, aerr := lA.Accept()
+			if aerr != nil {
+				t.Fatalf("accept %d: %v", i, aerr)
+			}
+			held = append(held, cn)
+		}
+		ev := c18RelEvent{Ev: "CloseRelease", Round: round, Stop: stop}
+		hook.mu.Lock()
+		hook.fire = func() {
+			ev.Fired = true
+			first, second := func() { _ = held[0].Close() }, func() { _ = lA.Close() }
+			if round%4 >= 2 {
+				first, second = second, first
+			}
+			go first()
+			time.Sleep(5 * time.Millisecond)
+			go second()
+			time.Sleep(15 * time.Millisecond)
+		}
+		hook.mu.Unlock()
+		res := make(chan error, 1)
+		go func() {
+			cn, aerr := lA.Accept()
+			if cn != nil {
+				_ = cn.Close()
+			}
+			res <- aerr
+		}()
+		select {
+		case aerr := <-res:
+			ev.Released = true
+			if aerr != nil {
+				ev.Err = aerr.Error()
+			}
+		case <-time.After(15 * time.Second):
+		}
+		// the slot of the closed connection is free: the other listener serves a new connection
+		clB, derr := net.Dial("tcp", innerB.Addr().String())
+		if derr != nil {
+			t.Fatal(derr)
+		}
+		resB := make(chan error, 1)
+		go func() {
+			cn, aerr := lB.Accept()
+			if cn != nil {
+				_ = cn.Close()
+			}
+			resB <- aerr
+		}()
+		select {
+		case aerr := <-resB:
+			ev.Other = aerr == nil
+			if aerr != nil {
+				ev.OtherErr = aerr.Error()
+			}
+		case <-time.After(5 * time.Second):
+			ev.OtherErr = "no accept within 5 s"
+		}
+		out.Emit(ev)
+		for _, cn := range held {
+			_ = cn.Close()
+		}
+		for _, cn := range clients {
+			_ = cn.Close()
+		}
+		_ = clB.Close()
+		_ = lB.Close()
+		_ = innerA.Close()
+		_ = innerB.Close()
+	}
+}
